@@ -401,10 +401,10 @@ Definition started_flow_ok (cfg : mwcfg) (u : string) (o : oreply) : bool :=
      or_relay, its AuthnRequest ID the request id signed in the cookie); a redirect holds none *)
   && (or_forms o =? (if m_post_binding cfg then 1 else 0)).
 
-Definition spec_step (m : mw) (a : action) (o : oreply) : bool :=
+(* the clauses about one ACS delivery *)
+Definition spec_deliver_core (m : mw) (r : response) (j : jar) (relay : string) (req_https : bool) (o : oreply) : bool :=
   let cfg := mw_cfg m in
-  match a with
-  | Deliver r j relay req_https =>
+
       forallb (cookie_flags_ok cfg req_https) (or_cookies o)
       && (if o_sets_session o then
             (or_status o =? 302)
@@ -421,7 +421,21 @@ Definition spec_step (m : mw) (a : action) (o : oreply) : bool :=
       && match faithful_delivery m r j relay with                                                         (* C17_interleaving *)
          | Some f => o_sets_session o && location_eqb (or_loc o) (LUrl (fl_uri f))
          | None => true
-         end
+         end.
+
+(* completeness without RelayState: a fresh valid answer to one of this browser's
+   own live flows, delivered with NO (or an empty) RelayState, is accepted and
+   goes to the configured default *)
+Definition default_delivery_clause (m : mw) (r : response) (j : jar) (relay : string) (o : oreply) : bool :=
+  if negb (nonempty relay) && r_ok r && response_fresh (mw_cfg m) (mw_clock m) r && own_flow_presented m j (r_irt r)
+  then o_sets_session o && location_eqb (or_loc o) (LUrl (m_default_redirect (mw_cfg m)))
+  else true.
+
+Definition spec_step (m : mw) (a : action) (o : oreply) : bool :=
+  let cfg := mw_cfg m in
+  match a with
+  | Deliver r j relay req_https =>
+      spec_deliver_core m r j relay req_https o && default_delivery_clause m r j relay o
   | Start u idx rid =>
       forallb (cookie_flags_ok cfg false) (or_cookies o) && negb (o_sets_session o)
       && started_flow_ok cfg u o
